@@ -25,6 +25,11 @@ def scenarios(tier):
                  [("TRAVEL", "O2"), ("TRAVEL", "I1"), ("PRINT", "O1"), ("PRINT", "I2"), ("RETRACT",), ("RECOVER",),
                   ("INCH",), ("MM",), ("ESET0",)], max_depth=7 if q else 10, max_states=3000000,
                  note="inch units: the generated G92/G1 pairs must be expressed in the file's units"),
+        Scenario("c05-firmware-compact", World,
+                 dict(prop="C05", monitors=mon, regions=["R"], emax=1, fw_retract="G10S1", fw_recover="G11S1"),
+                 [("TRAVEL", "O2"), ("TRAVEL", "I1"), ("PRINT", "O1"), ("PRINT", "I2"), ("FWRETRACT",), ("FWRECOVER",),
+                  ("AT", "ExcludeRegion", "disable"), ("AT", "ExcludeRegion", "enable")],
+                 max_states=200000 if q else 3000000, note="G10S1 / G11S1: no blank between code and parameter"),
         Scenario("c05-firmware", World, dict(prop="C05", monitors=mon, regions=["R"], emax=1 if q else 2),
                  MOVES + [("FWRETRACT",), ("FWRECOVER",)], max_states=200000 if q else 3000000),
     ]
